@@ -54,6 +54,10 @@ def design(ctx):
 SHARE = {"copy": "copy", "setsub": "assign-msg", "setsubfrom": "assign-submsg", "setrm": "assign-msglist",
          "setrmfrom": "assign-msglist-from", "rm.append": "append-msg", "vm.append": "append-msg",
          "rm.set0": "setitem-msg"}
+OPS_QUICK = ["new", "copy", "freeze", "seti", "setsub", "setsubnew", "setsubfrom", "setr", "setrfrom", "setrm", "setrmnew",
+             "setrmfrom", "setmp", "setmpfrom", "sub.seti", "r.append", "r.set0", "rm0.seti", "mp.setb", "view.sub", "view.r",
+             "view.rm", "view.mp", "view.rm0", "v.append", "v.set0", "v0.seti", "v.setb"]
+OPS_RICH = ["rm.append", "rm.set0", "vm.append"]
 CREATES = ("new", "copy", "view.sub", "view.r", "view.rm", "view.mp", "view.rm0")
 
 
@@ -194,6 +198,13 @@ def hist_part(ctx):
         # every generated transition is printed exactly once (the initial state is counted by TLC as generated)
         raise vlib.MachineryError("TLC generated %d transitions but %d histories were printed" % (r["transitions"], summary["edges"]))
     ctx.log("replayed %d histories: %d conform, %d diverge" % (summary["edges"], summary["conform"], summary["divergent"]))
+    # vacuity guard: every operation of the model ends at least one replayed history, and the model
+    # predicted failures (mutations of frozen content / of unset defaults) as well as successes
+    want = set(OPS_QUICK if ctx.quick else OPS_QUICK + OPS_RICH)
+    missing = sorted(want - {k for k, v in summary["by_op"].items() if v > 0})
+    if missing or not summary["expected_failures"] or summary["expected_failures"] == summary["edges"]:
+        raise vlib.MachineryError("coverage guard: operations never generated: %s (expected failures: %d of %d)" %
+                                  (missing, summary["expected_failures"], summary["edges"]))
     # seeded simulation beyond the exhaustive bound
     n = 150 if ctx.quick else 1500
     s = ctx.tlc("C20Hist", "C20HistSim.cfg", workers=1, timeout=1500, heap="4g", simulate="num=%d" % n, depth=8,
@@ -455,12 +466,16 @@ def range_part(ctx, rnd):
             "".join(" | %s: %s" % (k, v.get("err") or v.get("panic")) for k, v in sorted(r2["obs"].items()) if not v.get("ok")),
             e["count"], ",".join(sorted(e["pos"])))
         ctx.violation(sig, what[:700], {"kind": "range", "case": c})
+    # not judged (the property only requires well-typed content after a failure): failed stores that changed content
+    partial = collections.Counter(byid[r["id"]]["meta"]["pos"] for r in recs
+                                  if not r["op"]["ok"] and not r["op"]["panic"] and r["rb"]["ok"] and r["rb"]["v"] != r["before"])
     per = collections.Counter((c["meta"]["kind"], c["meta"]["pos"]) for c in cases)
     verdicts = collections.Counter("ok" if r["op"]["ok"] else "panic" if r["op"]["panic"] else "error" for r in recs)
     ctx.cov["ranges"] = {"records": len(cases), "rejected_by_spec": len(set(bad)), "outcomes": dict(verdicts),
                          "kinds": len(KINDS), "positions": sorted({c["meta"]["pos"] for c in cases}),
                          "distinct_values": len({c["meta"]["src"] for c in cases}),
                          "per_kind": {k: sum(v for (kk, _), v in per.items() if kk == k) for k in KINDS},
+                         "failed_stores_that_changed_content_by_position": dict(partial),
                          "rejected_by_signature": {k: v["count"] for k, v in sigs.items()}}
     ctx.samples += [{"op": c["op"], "pre": c["pre"][1:-2], "outcome": "ok" if res[c["id"]]["op"].get("ok") else
                      (res[c["id"]]["op"].get("err") or res[c["id"]]["op"].get("panic"))} for c in cases[:: max(1, len(cases) // 3)]][:3]
